@@ -2,7 +2,7 @@
     known findings are exactly the failing keys. *)
 From Coq Require Import NArith List Bool Arith.
 From PLV Require Import Base.PyStr Enc.Encoder Enc.Builtin Enc.RoundTrip.
-From PLV Require Import Proofs.EncBuiltinFacts Proofs.RoundTripDefs Proofs.InertDefs.
+From PLV Require Import Proofs.EncBuiltinFacts Proofs.FastProtection Proofs.RoundTripDefs Proofs.InertDefs.
 From PLV Require Import Gen.GenBaseline.
 From PLV Require Proofs.InertSweepNone Proofs.InertSweepBraces Proofs.InertSweepAll
                  Proofs.InertSweepAlmost Proofs.InertSweepAfter.
@@ -70,7 +70,8 @@ Proof.
   apply andb_true_iff in H. destruct H as [H H3]. apply andb_true_iff in H. destruct H as [H1 H2].
   apply str_eqb_true in H1. subst r'. exists r. split; [reflexivity|].
   split; [exact (map_of_find xml c r E)|]. split; [exact H2|].
-  rewrite forallb_forall in H3. specialize (H3 p Hp). unfold is_parsed000, chunk_parse in H3.
+  rewrite forallb_forall in H3. specialize (H3 p Hp).
+  rewrite (chunk_parse_eq xml p c r (map_of_find xml c r E)) in H3. unfold is_parsed000 in H3.
   destruct (parse_encoded (apply_protection p r)) as [[|?] [|?] [|?]| |]; try discriminate. reflexivity.
 Qed.
 
@@ -86,10 +87,12 @@ Theorem known_findings_fail : forall c p, In c known_xml_unparseable -> In p clo
 Proof.
   intros c p Hc Hp. pose proof known_sweep as H. rewrite forallb_forall in H. specialize (H c Hc).
   unfold known_fails in H. destruct (assoc_lookup (table_of true) c) as [r|] eqn:E; [|discriminate].
-  rewrite forallb_forall in H. specialize (H p Hp). unfold is_parse_error, chunk_parse in H.
-  destruct (parse_encoded (apply_protection p r)) as [| pos |] eqn:EP; try discriminate.
-  exists r, pos. split; [|exact EP].
+  rewrite forallb_forall in H. specialize (H p Hp).
   (* the trie agrees with the association list on this key *)
+  assert (EM' : map_lookup (map_of true) c = Some r); [|
+    rewrite (chunk_parse_eq true p c r (map_of_find true c r EM')) in H; unfold is_parse_error in H;
+    destruct (parse_encoded (apply_protection p r)) as [| pos |] eqn:EP; try discriminate;
+    exists r, pos; split; [exact EM'|exact EP] ].
   destruct (map_lookup (map_of true) c) as [r'|] eqn:EM.
   - assert (Hs : forallb (fun c => match assoc_lookup (table_of true) c, map_lookup (map_of true) c with
                                    | Some a, Some b => str_eqb a b | _, _ => false end)
